@@ -3,7 +3,12 @@ package c03
 
 import (
 	"bytes"
+	"crypto/ecdh"
+	"crypto/ecdsa"
 	"crypto/ed25519"
+	"crypto/elliptic"
+	"crypto/rand"
+	"crypto/rsa"
 	"crypto/x509"
 	"fmt"
 	"strings"
@@ -272,7 +277,7 @@ func TestProp_Window(t *testing.T) {
 			}
 		}
 		c.NBSkew, c.NASkew, c.NBEdge, c.NAEdge = nbSkew.String(), naSkew.String(), a.String(), b.String()
-		c.Field = rapid.SampledFrom([]string{"ok", "ok", "ok", "ok", "no-cert-key", "bad-cert-type", "no-nonce", "no-enc-key", "bad-enc-type", "not-after-missing", "not-after-bad-nanos", "not-before-bad-nanos"}).Draw(t, "field")
+		c.Field = rapid.SampledFrom([]string{"ok", "ok", "ok", "ok", "no-cert-key", "bad-cert-type", "no-nonce", "no-enc-key", "bad-enc-type", "not-after-missing", "not-after-bad-nanos", "not-before-bad-nanos", "cert-key-not-ed25519", "cert-key-not-ed25519"}).Draw(t, "field")
 		actor := vkit.NewActor("n")
 		if c.Entry == "fetch-authorized" {
 			if _, err := w.Authorize(actor); err != nil {
@@ -309,6 +314,33 @@ func TestProp_Window(t *testing.T) {
 			info.NotBefore.Nanos = rapid.SampledFrom([]int32{-1, 1_000_000_000, 2_000_000_000}).Draw(t, "nanos")
 		}
 		req := vkit.Sign(info, actor.CertPriv)
+		if c.Field == "cert-key-not-ed25519" {
+			// the bundle claims an Ed25519 key but names a well-formed key of another kind;
+			// whatever the signature bytes are, nothing can verify under it
+			var other any
+			switch rapid.SampledFrom([]string{"ecdsa", "x25519", "rsa"}).Draw(t, "otherKeyKind") {
+			case "ecdsa":
+				k, _ := ecdsa.GenerateKey(elliptic.P256(), rand.Reader)
+				other = &k.PublicKey
+			case "x25519":
+				k, _ := ecdh.X25519().GenerateKey(rand.Reader)
+				other = k.PublicKey()
+			default:
+				k, _ := rsa.GenerateKey(rand.Reader, 1024)
+				other = &k.PublicKey
+			}
+			pk, perr := x509.MarshalPKIXPublicKey(other)
+			if perr != nil {
+				t.Fatalf("marshal: %v", perr)
+			}
+			info.CertificatePublicKeyPkix = pk
+			b, _ := proto.Marshal(info)
+			sig := ed25519.Sign(actor.CertPriv, b)
+			if rapid.Bool().Draw(t, "zeroSignature") {
+				sig = make([]byte, 64)
+			}
+			req = &types.FetchNodeCredentialsRequest{Bundle: b, BundleSignature: sig}
+		}
 		c.Expected = windowOK && (c.Field == "ok" || strings.HasPrefix(c.Field, "not-"))
 		opts := w.O(nodeenrollment.WithNotBeforeClockSkew(nbSkew), nodeenrollment.WithNotAfterClockSkew(naSkew))
 		w.Rec.Reset()
